@@ -85,6 +85,11 @@ type c16Op struct {
 	// through - leader / follower / nonreplica of the partition, or "nats" for
 	// a raw envelope.
 	Route string `json:"route,omitempty"`
+	// Corr (histories with publisher-chosen correlation ids only, HasCorr set):
+	// the correlation id the publish carried.  It is NOT unique there - shared
+	// between publishers or empty - while Tag (= the message value) still is.
+	Corr    string `json:"corr,omitempty"`
+	HasCorr bool   `json:"has_corr,omitempty"`
 }
 
 func (o *c16Op) String() string {
@@ -93,6 +98,9 @@ func (o *c16Op) String() string {
 		via += "@" + o.Route
 	}
 	s := fmt.Sprintf("#%d p%d %s %s %s/%s e=%d [%d,%d] -> %s", o.ID, o.Pub, o.Phase, via, o.Policy, o.Class, o.E, o.Call, o.Ret, o.Out)
+	if o.HasCorr {
+		s = fmt.Sprintf("#%d p%d %s %s %s/%s e=%d cid=%q [%d,%d] -> %s", o.ID, o.Pub, o.Phase, via, o.Policy, o.Class, o.E, o.Corr, o.Call, o.Ret, o.Out)
+	}
 	if o.Out == c16OutOK || o.Fate == "stored" {
 		s += fmt.Sprintf("@%d", o.Off)
 	}
@@ -144,6 +152,15 @@ type c16Hist struct {
 	amu  sync.Mutex
 	sent map[string][]c16Sent // correlation id -> acks the partition sent (hook ack.send)
 
+	// corrOf (c16_slowacks_test.go, unit sharedcorr): when set, the correlation
+	// id of a publish is chosen by this function (shared between publishers,
+	// content-derived, empty) instead of being the unique tag.  Answers are then
+	// attributed by ack inbox: every Publish call and every raw envelope gets an
+	// inbox of its own (opInbox: inbox -> tag, under amu), a PublishAsync session
+	// carries one publish at a time.
+	corrOf  func(op *c16Op) string
+	opInbox map[string]string
+
 	// cluster histories (c16_cluster_test.go): the broker whose API a publisher
 	// talks to and the role of that broker for the partition.  Written before
 	// the publishers start.
@@ -173,8 +190,33 @@ func (h *c16Hist) newOp(pub int, phase, via, class string, policy client.AckPoli
 	defer h.mu.Unlock()
 	op := &c16Op{ID: len(h.ops), Pub: pub, Phase: phase, Via: via, Class: class, Policy: policy.String(), E: e, Off: -1, Route: h.pubRoute[pub]}
 	op.Tag = fmt.Sprintf("%s-%04d", h.stream, op.ID)
+	if h.corrOf != nil {
+		op.Corr, op.HasCorr = h.corrOf(op), true
+	}
 	h.ops = append(h.ops, op)
 	return op
+}
+
+// corr is the correlation id a publish carries: the unique tag, unless the
+// history chooses correlation ids itself.
+func (h *c16Hist) corr(op *c16Op) string {
+	if op.HasCorr {
+		return op.Corr
+	}
+	return op.Tag
+}
+
+// ownInbox gives a publish of a history with shared correlation ids an ack
+// inbox of its own and remembers whose it is.
+func (h *c16Hist) ownInbox(op *c16Op) string {
+	inbox := nats.NewInbox()
+	h.amu.Lock()
+	if h.opInbox == nil {
+		h.opInbox = map[string]string{}
+	}
+	h.opInbox[inbox] = op.Tag
+	h.amu.Unlock()
+	return inbox
 }
 
 func (h *c16Hist) witness(extra map[string]any) map[string]any {
@@ -222,7 +264,15 @@ func c16InstallHook() func() {
 		}
 		h := v.(*c16Hist)
 		h.amu.Lock()
-		h.sent[ack.CorrelationId] = append(h.sent[ack.CorrelationId], c16Sent{Err: ack.AckError.String(), Off: ack.Offset})
+		key, ok := ack.CorrelationId, true
+		if h.corrOf != nil {
+			// correlation ids are not unique in this history: the ack inbox is
+			// (acks to a PublishAsync session's inbox are not attributed)
+			key, ok = h.opInbox[ack.AckInbox]
+		}
+		if ok {
+			h.sent[key] = append(h.sent[key], c16Sent{Err: ack.AckError.String(), Off: ack.Offset})
+		}
 		h.amu.Unlock()
 		return nil
 	})
@@ -260,7 +310,10 @@ func (h *c16Hist) viaAPIOn(srv *Server, op *c16Op, policy client.AckPolicy, kind
 	}
 	defer cancel()
 	req := &client.PublishRequest{Stream: h.stream, Value: []byte(op.Tag), Key: []byte("k"), AckPolicy: policy,
-		CorrelationId: op.Tag, ExpectedOffset: op.E}
+		CorrelationId: h.corr(op), ExpectedOffset: op.E}
+	if op.HasCorr {
+		req.AckInbox = h.ownInbox(op)
+	}
 	op.Call = h.now()
 	resp, err := srv.api.Publish(ctx, req)
 	op.Ret = h.now()
@@ -355,10 +408,10 @@ func (s *c16Async) close() {
 func (h *c16Hist) viaAsync(s *c16Async, op *c16Op, policy client.AckPolicy) {
 	ch := make(chan *client.PublishResponse, 4)
 	s.mu.Lock()
-	s.wait[op.Tag] = ch
+	s.wait[h.corr(op)] = ch // shared correlation ids: one publish at a time per session
 	s.mu.Unlock()
 	req := &client.PublishRequest{Stream: h.stream, Value: []byte(op.Tag), Key: []byte("k"), AckPolicy: policy,
-		CorrelationId: op.Tag, ExpectedOffset: op.E}
+		CorrelationId: h.corr(op), ExpectedOffset: op.E}
 	timer := time.NewTimer(20 * time.Second)
 	defer timer.Stop()
 	op.Call = h.now()
@@ -420,8 +473,23 @@ func c16NewRaw(nc *nats.Conn) (*c16Raw, error) {
 }
 
 func (h *c16Hist) viaRaw(r *c16Raw, op *c16Op, policy client.AckPolicy, wait bool) {
+	if op.HasCorr {
+		// the correlation id does not identify the publish: an inbox of its own
+		own := &c16Raw{nc: r.nc, inbox: h.ownInbox(op), late: map[string]*client.Ack{}}
+		sub, err := r.nc.SubscribeSync(own.inbox)
+		if err != nil {
+			op.Call = h.now()
+			op.Ret, op.Out, op.Err = op.Call, c16OutOpen, "ack inbox: "+err.Error()
+			return
+		}
+		defer sub.Unsubscribe()
+		// the subscription must be known to the NATS server before the publish
+		// can be answered
+		r.nc.Flush()
+		own.sub, r = sub, own
+	}
 	data, err := proto.MarshalPublish(&client.Message{Value: []byte(op.Tag), Key: []byte("k"), Stream: h.stream, Subject: h.stream,
-		AckInbox: r.inbox, CorrelationId: op.Tag, AckPolicy: policy, Offset: op.E})
+		AckInbox: r.inbox, CorrelationId: h.corr(op), AckPolicy: policy, Offset: op.E})
 	if err != nil {
 		panic(err)
 	}
@@ -450,7 +518,7 @@ func (h *c16Hist) viaRaw(r *c16Raw, op *c16Op, policy client.AckPolicy, wait boo
 		if err != nil {
 			continue
 		}
-		if ack.CorrelationId != op.Tag {
+		if ack.CorrelationId != h.corr(op) {
 			r.late[ack.CorrelationId] = ack
 			continue
 		}
@@ -516,6 +584,13 @@ func c16Expected(rng *kit.RNG, class string, believed int64) int64 {
 		return 0
 	case "negative":
 		return []int64{-2, -3, -1000, -1 << 31, -1 << 63}[rng.Intn(5)]
+	case "repeat":
+		// the offset the newest message took (what a second writer of the same
+		// update names)
+		if believed > 0 {
+			return believed - 1
+		}
+		return 0
 	}
 	return -1
 }
@@ -599,6 +674,9 @@ func (h *c16Hist) publisher(pub int, kind string, nops int, rng *kit.RNG, raw *c
 		case x < 14 && kind == "api":
 			special = "nowait"
 		}
+		if h.corrOf != nil && kind == "raw" {
+			special = "" // a late nack could not be told from the next publish's
+		}
 		one("conc", h.pickClass(rng), h.policyFor(rng), special)
 		if rng.Chance(1, 10) {
 			time.Sleep(time.Duration(rng.Intn(300)) * time.Microsecond)
@@ -629,6 +707,9 @@ func (h *c16Hist) sequential(rng *kit.RNG, raw *c16Raw) {
 	defer as.close()
 	for i := 0; i < h.seqLen && !h.failed.Load(); i++ {
 		class := []string{"equal", "equal", "stale", "future", "zero", "any", "negative"}[rng.Intn(7)]
+		if h.corrOf != nil && rng.Chance(1, 3) {
+			class = "repeat"
+		}
 		e := c16Expected(rng, class, next)
 		policy := h.policyFor(rng)
 		var op *c16Op
@@ -771,7 +852,7 @@ func (h *c16Hist) checkLog(recs []vfLogRec, st *c16Stats) {
 				if o.E == -1 && !strings.HasSuffix(o.Via, "-none") {
 					st.openAnyAbsent++
 				}
-				if o.Waited && h.answeredLater(o) && h.acksSent(o.Tag) == 0 {
+				if o.Waited && h.answeredLater(o) && h.acksSent(o.Tag) == 0 && !(o.HasCorr && strings.HasPrefix(o.Via, "async")) {
 					// The same publisher's later publish on the same connection
 					// was answered, so the partition had processed this one: it
 					// neither stored it nor told the publisher.
@@ -857,6 +938,12 @@ func (h *c16Hist) checkAcks() int {
 // ---------------------------------------------------------------- one history
 
 func c16RunHistory(rep *kit.Report, c *vfCluster, srv *Server, cfgDesc string, serverWide bool, mode string, idx int, seed uint64, pool []*nats.Conn) {
+	c16RunHistoryWith(rep, c, srv, cfgDesc, serverWide, mode, idx, seed, pool, nil)
+}
+
+// c16RunHistoryWith: setup (may be nil) adjusts the history before anything is
+// published (the sharedcorr unit chooses the correlation ids there).
+func c16RunHistoryWith(rep *kit.Report, c *vfCluster, srv *Server, cfgDesc string, serverWide bool, mode string, idx int, seed uint64, pool []*nats.Conn, setup func(h *c16Hist)) {
 	rng := kit.NewRNG(seed)
 	h := &c16Hist{rep: rep, c: c, srv: srv, cfgDesc: cfgDesc, seed: seed, mode: mode, sent: map[string][]c16Sent{}, porcOnly: kit.EnvInt("C16_PORC_ONLY", 0) == 1}
 	h.stream = fmt.Sprintf("c16h%d", idx)
@@ -896,6 +983,9 @@ func c16RunHistory(rep *kit.Report, c *vfCluster, srv *Server, cfgDesc string, s
 		rep.Eval()
 		h.fail(fp, fmt.Sprintf("a stream created under %s has a partition log without concurrency control; a publish with expected offset 5 on the empty stream was answered: %s", how, op), nil)
 		return
+	}
+	if setup != nil {
+		setup(h)
 	}
 	c16HookHists.Store(h.stream, h)
 	defer c16HookHists.Delete(h.stream)
